@@ -15,6 +15,7 @@
 #include <unordered_set>
 #include <sstream>
 #include <unistd.h>
+#include <sys/time.h>
 
 namespace verif {
 
@@ -105,7 +106,16 @@ inline void crash_handler(int sig) {
     std::signal(sig, SIG_DFL);
     raise(sig);
 }
+// hang detection on CPU time (not wall clock): an operation on the code under test that burns more than the armed
+// number of CPU seconds is reported like a crash with signal SIGVTALRM ("hang")
+inline void arm_hang_timer(unsigned cpu_seconds) {
+    struct itimerval t; std::memset(&t, 0, sizeof t); t.it_value.tv_sec = cpu_seconds;
+    setitimer(ITIMER_VIRTUAL, &t, nullptr);
+}
+inline void disarm_hang_timer() { arm_hang_timer(0); }
+
 inline void install_crash_handler() {
+    std::signal(SIGVTALRM, crash_handler);
     std::signal(SIGABRT, crash_handler);
     std::signal(SIGSEGV, crash_handler);
     std::signal(SIGBUS, crash_handler);
